@@ -77,14 +77,16 @@ def _window_coords(ref, i, k, reverse):
     return [p - w[0] for p in w]
 
 
-def q_planted(rng, qid, ref, kmin=15, kmax=45, margin=4, reverse=None, decimals=True):
-    """Exact copy of an interior window (C06 bounds): >= margin labels from either end."""
+def q_planted(rng, qid, ref, kmin=15, kmax=45, margin=4, reverse=None, decimals=True, force=None):
+    """Exact copy of an interior window (C06 bounds): >= margin labels from either end.  force=(i, k) fixes the window."""
     n = len(ref["pos"])
     kmax = min(kmax, n - 2 * margin)
     if kmax < kmin:
         return None, None
     k = rng.randint(kmin, kmax)
     i = rng.randint(margin, n - margin - k)
+    if force is not None:
+        i, k = force
     reverse = (rng.random() < 0.5) if reverse is None else reverse
     off = rng.choice([0.0, r1(rng.uniform(0, 50000)), float(rng.randint(0, 50000))])
     tail = rng.choice([0.0, r1(rng.uniform(0, 20000))])
@@ -213,6 +215,61 @@ def q_indel(rng, qid, ref, lattice=None):
             {"kind": "indel", "ref": ref["id"], "reverse": reverse, "indel": kind, "size": size})
 
 
+def q_double_indel(rng, qid, ref):
+    """A window with two small insertions (2-6 kb: beyond -d, inside the secondary margin): three chained segments."""
+    n = len(ref["pos"])
+    if n < 34:
+        return None, None
+    k = rng.randint(30, min(48, n - 2))
+    i = rng.randint(0, n - k)
+    reverse = rng.random() < 0.5
+    w = ref["pos"][i:i + k]
+    m1 = rng.randint(8, k // 2 - 3)
+    m2 = rng.randint(k // 2 + 3, k - 8)
+    s1, s2 = rng.uniform(2000, 6000), rng.uniform(2000, 6000)
+    fwd = [p - w[0] + (s1 if j >= m1 else 0) + (s2 if j >= m2 else 0) for j, p in enumerate(w)]
+    if reverse:
+        fwd = [fwd[-1] - p for p in reversed(fwd)]
+    off = r1(rng.uniform(0, 10000))
+    pos = [r1(p + off) for p in fwd]
+    return ({"id": qid, "length": r1(pos[-1] + 1), "pos": pos, "family": "double-indel"},
+            {"kind": "double-indel", "ref": ref["id"], "reverse": reverse})
+
+
+def dense_head(rng, ref):
+    """First labels 2-3 kb apart and close to coordinate 0 (still within 'spacing >= 2 kb')."""
+    gaps = [ref["pos"][j + 1] - ref["pos"][j] for j in range(len(ref["pos"]) - 1)]
+    for j in range(min(7, len(gaps))):
+        gaps[j] = rng.uniform(2000, 3200)
+    p = rng.uniform(100, 1500)
+    pos = [r1(p)]
+    for g in gaps:
+        p += g
+        pos.append(r1(p))
+    tail = ref["length"] - ref["pos"][-1]
+    ref["pos"] = pos
+    ref["length"] = r1(pos[-1] + tail)
+    return ref
+
+
+def near_palindrome(rng, ref, i, k, noise=150.0):
+    """Make the gaps of window [i, i+k) mirror-symmetric up to +-noise bp."""
+    gaps = [ref["pos"][j + 1] - ref["pos"][j] for j in range(len(ref["pos"]) - 1)]
+    w = gaps[i:i + k - 1]
+    for j in range(len(w) // 2):
+        w[len(w) - 1 - j] = max(2000.0, w[j] + rng.uniform(-noise, noise))
+    gaps[i:i + k - 1] = w
+    p = ref["pos"][0]
+    pos = [r1(p)]
+    for g in gaps:
+        p += g
+        pos.append(r1(p))
+    tail = ref["length"] - ref["pos"][-1]
+    ref["pos"] = pos
+    ref["length"] = r1(pos[-1] + tail)
+    return ref
+
+
 def q_symmetric_chimera(rng, qid, refs, lattice=LATTICE):
     """[flank | middle | flank]: three exact lattice windows from far-apart places; the middle has more labels (the
     first pass takes it), the two flanks have the *same* number of labels, so the two second-pass fragments of this
@@ -338,7 +395,7 @@ def swarm_config(rng, lattice=False, aggressive=True):
     if pick(0.35):
         cfg["-bs"] = rng.choice([250, 600, 1200, 2500, 100000])
     if pick(0.35) and not lattice:
-        cfg["-d"] = rng.choice([300, 600, 1000, 1500, 2500, 4000])
+        cfg["-d"] = rng.choice([40, 80, 300, 600, 1000, 1500, 2500, 4000])
     if pick(0.5):
         cfg["-diff"] = rng.choice([0, 20000, 100000, 10000000])
     if pick(0.25):
@@ -404,6 +461,8 @@ def make_queries(rng, refs, n, mix, ids=None, lattice=None):
                 q, t = q_indel(rng, qid, ref, lattice=lattice)
             elif fam == "symmetric-chimera":
                 q, t = q_symmetric_chimera(rng, qid, refs)
+            elif fam == "double-indel":
+                q, t = q_double_indel(rng, qid, ref)
             elif fam == "degenerate":
                 q, t = q_degenerate(rng, qid, refs)
             else:
@@ -415,6 +474,30 @@ def make_queries(rng, refs, n, mix, ids=None, lattice=None):
         queries.append(q)
         truths[str(qid)] = t
     return queries, truths
+
+
+def add_twin_labels(rng, m, count=1):
+    """Two distinct labels at exactly the same coordinate (valid CMAP; real data has them at 0.1 bp resolution)."""
+    pos = list(m["pos"])
+    for _ in range(count):
+        if len(pos) < 4:
+            break
+        j = rng.randrange(1, len(pos) - 1)
+        pos.insert(j, pos[j])
+    m["pos"] = pos
+    return m
+
+
+def tight_pair(rng, rid, qid):
+    """A reference only a few seeding bins longer than a reverse-strand query that covers nearly all of it."""
+    ref = ref_random(rng, rid, rng.randint(22, 40))
+    n = len(ref["pos"])
+    k = n - rng.randint(0, 2)
+    i = rng.randint(0, n - k)
+    rel = _window_coords(ref, i, k, True)
+    q = {"id": qid, "length": r1(rel[-1] + 1), "pos": [r1(p) for p in rel], "family": "tight"}
+    ref["length"] = r1(max(ref["pos"][-1] + rng.uniform(1, 2500), q["length"] + rng.uniform(1, 3000)))
+    return ref, q
 
 
 def strip(m):
